@@ -59,6 +59,10 @@ def gen_cases(rng, tier):
                 spread = rng.choice([40, 150, 400, 900])
                 fr.append([base[i] + rng.randint(-spread, spread) + DEN * rng.randint(-1, 1) for i in range(3)])
             pos.append(fr)
+        if mode == 'auto' and rng.random() < 0.25:
+            k0 = rng.randrange(len(pts))
+            pts.append(tuple(c + (8 if i == 0 else 0) for i, c in enumerate(pts[k0])) if rng.random() < 0.5 else pts[k0])     # +1 cell along a, or verbatim
+            labels.append(labels[k0] if rng.random() < 0.5 else rng.randrange(nl))
         cases.append({'m': m, 'orient': rng.choice(['asis', 'rot', 'params']), 'rseed': rng.randrange(10**6), 'sites8': [list(p) for p in pts],
                       'labels': labels, 'mode': mode, 'radius': radius, 'frac': rng.choice([1.0, 1.0, 0.8, 0.5]), 'pos': pos,
                       'site_scale': rng.choice([1.0, 1.0, 1.0, 0.96, 1.05])})
@@ -217,6 +221,10 @@ def oracle(case, out):
                     return [('sites/state-not-admissible', f'{case["many"]["n"]}^3 = {case["many"]["n"] ** 3} sites: the atom 0.1 A from site {want[k]} is assigned '
                              f'{"inner " if name == "many_inner" else ""}state {row[k]} (frame {t})')]
         return []
+    pts_ = [tuple(c % 8 for c in p) for p in case['sites8']]
+    if case['mode'] == 'auto' and len(set(pts_)) < len(pts_) and not out.get('too_close'):
+        return [('sites/auto-radius-overlap', f'two listed sites coincide (sites/8 {case["sites8"]}): with the automatic radius their spheres overlap completely, yet no '
+                 f'"too close" error was raised (radius {out.get("auto_radius")})')]
     if out.get('too_close'):
         return []
     if 'states' not in out:
